@@ -538,28 +538,55 @@ Proof.
   intros I RP. unfold maybe_finish. destruct (walk s) eqn:W; [apply inv_finish; assumption|exact I].
 Qed.
 
-Lemma inv_rstep s : Inv s -> enabled s 1 = true -> Inv (fst (rstep s)).
+(* the resolver's step before the end-of-walk test: (state, whether maybe_finish follows) *)
+Definition rstep_in (s : st) : st * bool :=
+  match rpcf s with
+  | RXWait => (set_rpc s RClaim, false)
+  | RClaim => (let s1 := touch s in set_rpc (set_payload s1 (payload_of (rk s1)) (has_payload (rk s1))) RResolve, false)
+  | RResolve =>
+      (let s1 := touch s in
+       let l := match slot s1 with SChain l => l | SReady => [] end in
+       set_rpc (set_walk (set_slot s1 SReady) l) RWalk, true)
+  | RWalk =>
+      match walk s with
+      | [] => (s, true)
+      | NT :: t => (set_rpc (set_walk (touch s) t) RClr, false)
+      | NU w :: t => (release_node (set_walk s t) w, true)
+      end
+  | RClr => (set_rpc (drop_ref (set_selfref (touch s) false)) RWalk, true)
+  | RDone _ => (s, false)
+  end.
+
+Lemma rstep_in_eq s :
+  fst (rstep s) = if snd (rstep_in s) then maybe_finish (fst (rstep_in s)) else fst (rstep_in s).
 Proof.
-  intros I E. cbn [enabled] in E. unfold rstep. destruct (rpcf s) eqn:RP; try discriminate; cbn [fst].
+  unfold rstep, rstep_in. destruct (rpcf s); try reflexivity. destruct (walk s) as [|[|w] t]; reflexivity.
+Qed.
+
+Lemma inv_rstep_in s : Inv s -> enabled s 1 = true ->
+  Inv (fst (rstep_in s)) /\ (snd (rstep_in s) = true -> rpcf (fst (rstep_in s)) = RWalk).
+Proof.
+  intros I E. cbn [enabled] in E. unfold rstep_in. destruct (rpcf s) eqn:RP; try discriminate; cbn [fst snd].
   - (* RXWait *)
-    open_inv I. mk_inv; go.
+    split; [|discriminate]. open_inv I. mk_inv; go.
   - (* RClaim *)
     destruct (alive_pending s (proj1 I)) as (A & B). { pose proof (rs_ok s (proj1 I)) as Q. rewrite RP in Q. tauto. }
-    rewrite touch_alive by exact A. open_inv I. specialize (Irc A).
+    rewrite touch_alive by exact A. split; [|discriminate]. open_inv I. specialize (Irc A).
     mk_inv; go.
   - (* RResolve *)
     destruct (alive_pending s (proj1 I)) as (A & B). { pose proof (rs_ok s (proj1 I)) as Q. rewrite RP in Q. tauto. }
-    rewrite touch_alive by exact A. apply inv_mf; [|reflexivity].
+    rewrite touch_alive by exact A. split; [|reflexivity].
     open_inv I. specialize (Irc A). destruct (slot s) as [l|] eqn:SL.
     + mk_inv; go.
     + exfalso. unf. rew_hyps. destruct Irs. discriminate.
   - (* RWalk *)
     destruct (walk s) as [|[|w] t] eqn:WK.
-    + apply inv_mf; assumption.
+    + cbn [fst snd]. split; [exact I|intros _; exact RP].
     + destruct (alive_tracer s (proj1 I)) as (A & B). { unfold tcount. rewrite WK. autorewrite with cntdb. lia. }
-      rewrite touch_alive by exact A. open_inv I. specialize (Irc A).
+      rewrite touch_alive by exact A. cbn [fst snd]. split; [|discriminate]. open_inv I. specialize (Irc A).
       mk_inv; go.
     + (* a user node *)
+      cbn [fst snd].
       destruct I as [IA OC].
       assert (IA0 : InvA (set_walk s t)). { open_invA IA. constructor; go. }
       assert (P : 1 <= inl (users s) w).
@@ -576,9 +603,9 @@ Proof.
         exfalso. destruct (upcf u); try discriminate; tauto.
       * exfalso. destruct (upcf u); try discriminate; tauto.
       * (* coroutine: collected in the suspend point *)
-        apply inv_mf; [|exact RP]. open_invA IA. split; [constructor|]; go.
+        split; [|intros _; exact RP]. open_invA IA. split; [constructor|]; go.
       * (* blocking: flag *)
-        apply inv_mf; [|exact RP].
+        split; [|intros _; exact RP].
         destruct (upcf u) eqn:PC; try discriminate; try tauto.
         destruct (uflag u) eqn:FL; [discriminate|].
         open_invA IA.
@@ -586,7 +613,7 @@ Proof.
       * (* callback: runs now *)
         assert (HU : upc_handles (upcf u) = 1) by (destruct (upcf u); try discriminate; reflexivity).
         destruct (fu_inv (set_walk s t) w u IA0 Hw HU) as (IA' & US & SL & WK' & AC & RP' & _).
-        apply inv_mf; [|rewrite RP'; exact RP].
+        split; [|intros _; rewrite RP'; exact RP].
         split; [exact IA'|]. intros w0. specialize (OC0 w0). unfold occ, chain in *. rewrite SL, WK', AC, US. simp_st.
         rewrite (inl_set_nth _ w u _ w0 Hw). destruct (Nat.eqb_spec w w0) as [->|N].
         -- rewrite Nat.eqb_refl in OC0. unfold inl in OC0. rewrite Hw in OC0. unfold inlist in OC0.
@@ -595,10 +622,16 @@ Proof.
   - (* RClr *)
     destruct (alive_tracer s (proj1 I)) as (A & B). { unfold tcount. rewrite RP. lia. }
     rewrite touch_alive by exact A. rewrite drop_ref_alive by (simp_st; assumption).
-    apply inv_mf.
-    2: { simp_st. reflexivity. }
+    split.
+    2: { intros _. simp_st. reflexivity. }
     open_inv I. specialize (Irc A).
     use_dropped (set_selfref s false) B; mk_inv; go.
+Qed.
+
+Lemma inv_rstep s : Inv s -> enabled s 1 = true -> Inv (fst (rstep s)).
+Proof.
+  intros I E. rewrite rstep_in_eq. destruct (inv_rstep_in s I E) as (A & B).
+  destruct (snd (rstep_in s)); [apply inv_mf; auto|exact A].
 Qed.
 
 Theorem inv_step s i : Inv s -> enabled s i = true -> Inv (fst (tstep s i)).
